@@ -298,10 +298,17 @@ def run(tier):
         for k, m in scale_models(N).items():
             add("scale", k, {"entry": "xml_buffer", "text": xmlgen.render_xml(m), "timeout": 300, "write_xml": os.path.join(c.run_dir, "scale.xml"), "stack_mb": 8}, {"probe": k, "N": N, "backend": "document"})
             add("scale", k, {"builder": "pretty", "entry": "xml_buffer", "text": xmlgen.render_xml(m), "timeout": 300, "dump": False}, {"probe": k, "N": N, "backend": "pretty"})
+    # ---- 5b. entity references in attribute values (the readers are created with XML_PARSE_HUGE, which lifts libxml2's amplification limits)
+    def entity_doc(levels):
+        ents = '<!ENTITY e0 "aaaaaaaaaa">' + "".join('<!ENTITY e%d "%s">' % (k, ("&e%d;" % (k - 1)) * 10) for k in range(1, levels + 1))
+        return ('<?xml version="1.0"?><!DOCTYPE nta [' + ents + ']><nta><declaration>int i;</declaration><template><name>T</name><location id="id0&e%d;"><name>A</name></location>'
+                '<init ref="id0"/></template><system>system T;</system></nta>') % levels
+    for L in (5, 6, 7):
+        add("entity", "levels", {"entry": "xml_buffer", "text": entity_doc(L), "timeout": 120}, {"levels": L, "bytes": len(entity_doc(L)), "backend": "document"})
     # ---- run
     # scaling probes run against the plain build: sanitizer frames are an order of magnitude larger than the library's own
-    sjobs = [j for j in jobs if meta[j["id"]][0] == "scale"]
-    res = vf.run_jobs([j for j in jobs if meta[j["id"]][0] != "scale"], c.run_dir, variant="asan", name="c01", timeout=3300)
+    sjobs = [j for j in jobs if meta[j["id"]][0] in ("scale", "entity")]
+    res = vf.run_jobs([j for j in jobs if meta[j["id"]][0] not in ("scale", "entity")], c.run_dir, variant="asan", name="c01", timeout=3300)
     res.update(vf.run_jobs(sjobs, c.run_dir, variant="plain", name="c01s", timeout=3300))
     counts = {}
     for j in jobs:
@@ -367,6 +374,11 @@ def run(tier):
             if big > 4000 and big / max(ms, 1.0) > 10.0:
                 c.finding("c01:scale:%s:superlinear" % key, "parsing %s with N=%d takes %.0f ms but %.0f ms with N=%d (x%.1f for x4 input) [%s back end]" % (key, N, ms, big, 4 * N, big / max(ms, 1.0), be),
                           {"probe": key, "N": N, "ms": ms, "ms_4N": big, "backend": be})
+    ent = {meta[j["id"]][2]["levels"]: (res[j["id"]]["ms"], res[j["id"]]["maxrss_kb"], meta[j["id"]][2]["bytes"]) for j in jobs if meta[j["id"]][0] == "entity" and not crashed(res[j["id"]])}
+    c.cov["entity_expansion_ms_rss_bytes"] = ent
+    if 6 in ent and 7 in ent and ent[7][0] > 1500 and ent[7][0] > 5 * ent[6][0]:
+        c.finding("c01:scale:xml-attribute-entities:superlinear", "a %d-byte document with nested entity references in an attribute value takes %.0f ms and %d MB; the %d-byte one %.0f ms and %d MB (x%.1f time for %d more bytes)" % (
+            ent[7][2], ent[7][0], ent[7][1] // 1024, ent[6][2], ent[6][0], ent[6][1] // 1024, ent[7][0] / max(ent[6][0], 1), ent[7][2] - ent[6][2]), {"levels": 7, "job": {"entry": "xml_buffer", "text": entity_doc(7)}})
     c.cov["growth_factor_for_4x_input"] = growth
     c.cov["traces_validated_against_impl"] = len(jobs) + nlex
     c.cov["evaluations"] = len(jobs) + nlex
